@@ -2,7 +2,7 @@ from __future__ import annotations
 
 from typing import Callable
 
-from ._type_qualifier import Port, Generic
+from ._type_qualifier import Port, Generic, TypeQualifier
 from ._collect_ast_and_scope import FunctionDefinition, InstantiatedFunction
 from cohdl.utility.source_location import SourceLocation
 from ._intrinsic import _intrinsic, _intrinsic_replacement, _IntrinsicInlineEntity
@@ -296,6 +296,13 @@ class Entity(Block):
                     raise AssertionError(
                         f"assignment to port '{name}' failed (src={value}, target={info.ports[name]})"
                     )
+
+                if isinstance(value, TypeQualifier):
+                    # the actual is wired to the port in the port map,
+                    # no conversion takes place there
+                    assert (
+                        value.type is info.ports[name].type
+                    ), f"type of the object connected to port '{name}' ({value.type}) differs from the port type ({info.ports[name].type})"
 
                 self._cohdl_port_definitions[name] = value
             elif name in info.generics:
